@@ -81,6 +81,23 @@ Theorem C17_annotation_flags : forall all mine i a,
 Proof. intros all mine i a Hl Hn. rewrite (ann_flag_correct all mine i a Hl Hn). apply has_ann_In. Qed.
 Print Assumptions C17_annotation_flags.
 
+(** The mask is the OR of the bits of the declared SET: the order (and repetition) in which a combinator
+    lists its annotations is irrelevant (`@write @kphp` = `@kphp @write`), and no bit outside the kernel's
+    table is set. *)
+Theorem C17_annotation_mask_order_free : forall all mine mine',
+  (forall x, In x mine <-> In x mine') -> ann_mask all mine = ann_mask all mine'.
+Proof. exact ann_mask_order_free. Qed.
+Print Assumptions C17_annotation_mask_order_free.
+
+Theorem C17_annotation_mask_no_other_bits : forall all mine n,
+  lenN all <= n -> N.testbit (ann_mask all mine) n = false.
+Proof. intros all mine n H. unfold ann_mask. apply ann_mask_no_other_bits. exact H. Qed.
+Print Assumptions C17_annotation_mask_no_other_bits.
+
+Example C17_ex_mask_any_order :
+  ann_mask [[97]; [114]; [119]] [[119]; [97]] = 5 /\ ann_mask [[97]; [114]; [119]] [[97]; [119]] = 5 /\ ann_mask [[97]; [114]; [119]] [[119]; [114]; [119]] = 6.
+Proof. vm_compute. repeat split; reflexivity. Qed.
+
 (** Every boxed encoding starts with the tag the object reports: its own for a struct / function, the
     tag of the active variant for a union.  From the definition of the writer [enc1]; any schema, any
     value, with or without the length-sanity option. *)
